@@ -12,7 +12,7 @@
 (* event.  The search is linear (every event carries all its arguments and *)
 (* results); acceptance is "every line consumed" (POSTCONDITION).          *)
 (***************************************************************************)
-EXTENDS Rel, Stages, Json, IOUtils
+EXTENDS Rel, Stages, Extras, Json, IOUtils
 
 CONSTANT Want          \* property ids whose clauses are evaluated, e.g. {"C01", "C02"}
 
@@ -118,13 +118,15 @@ Verdict(e) ==
   CASE e.op = "rate" -> RateVerdict(e)
     [] e.op \in {"win", "draw", "rank"} -> PredictVerdict(e)
     [] e.op = "kernel" -> [fails |-> IF W("C17") THEN C17(e) ELSE {}, cls |-> C17Classes(e), X |-> <<>>]
+    \* the rest of the surface (Extras.tla): no listed property, only `./check extras` asks for it
+    [] e.op = "extra" -> [fails |-> IF W("X") THEN ExtraFails(e) ELSE {}, cls |-> ExtraClasses(e), X |-> <<>>]
     [] OTHER -> ObjVerdict(e, heap, Want)
 
 \* values whose rating leaves enter the heap after the event
 Touched(e) ==
   CASE e.op = "rate" -> {e.after} \cup (IF Ok(e) THEN {e.out.value} ELSE {})
     [] e.op \in {"win", "draw", "rank"} -> {e.after}
-    [] e.op = "kernel" -> {}
+    [] e.op \in {"kernel", "extra"} -> {}
     [] OTHER -> ObjTouched(e)
 
 ---------------------------------------------------------------------------
